@@ -49,7 +49,7 @@ func NewForEpoch(epoch uint64) *Index {
 
 // Set sets the blocktime for the given slot.
 func (i *Index) Set(slot uint64, time int64) error {
-	if slot < i.start || slot > i.end {
+	if slot < i.start || slot > i.end || slot-i.start >= uint64(len(i.values)) {
 		return NewErrSlotOutOfRange(i.start, i.end, slot)
 	}
 	i.values[slot-i.start] = time
@@ -58,7 +58,8 @@ func (i *Index) Set(slot uint64, time int64) error {
 
 // Get gets the blocktime for the given slot.
 func (i *Index) Get(slot uint64) (int64, error) {
-	if slot < i.start || slot > i.end {
+	if slot < i.start || slot > i.end || slot-i.start >= uint64(len(i.values)) {
+		// NOTE: start, end and capacity come from the file and need not agree.
 		return 0, NewErrSlotOutOfRange(i.start, i.end, slot)
 	}
 	return i.values[slot-i.start], nil
@@ -132,7 +133,7 @@ func blocktimeToBytes(blocktime int64) ([]byte, error) {
 func (i *Index) unmarshalBinary(data []byte) error {
 	reader := bytes.NewReader(data)
 	magicBuf := make([]byte, len(magic))
-	_, err := reader.Read(magicBuf)
+	_, err := io.ReadFull(reader, magicBuf)
 	if err != nil {
 		return fmt.Errorf("failed to read magic: %w", err)
 	}
@@ -141,21 +142,21 @@ func (i *Index) unmarshalBinary(data []byte) error {
 	}
 
 	startBuf := make([]byte, 8)
-	_, err = reader.Read(startBuf)
+	_, err = io.ReadFull(reader, startBuf)
 	if err != nil {
 		return fmt.Errorf("failed to read start: %w", err)
 	}
 	i.start = slottools.Uint64FromLEBytes(startBuf)
 
 	endBuf := make([]byte, 8)
-	_, err = reader.Read(endBuf)
+	_, err = io.ReadFull(reader, endBuf)
 	if err != nil {
 		return fmt.Errorf("failed to read end: %w", err)
 	}
 	i.end = slottools.Uint64FromLEBytes(endBuf)
 
 	epochBuf := make([]byte, 8)
-	_, err = reader.Read(epochBuf)
+	_, err = io.ReadFull(reader, epochBuf)
 	if err != nil {
 		return fmt.Errorf("failed to read epoch: %w", err)
 	}
@@ -173,16 +174,20 @@ func (i *Index) unmarshalBinary(data []byte) error {
 	}
 
 	capacityBuf := make([]byte, 8)
-	_, err = reader.Read(capacityBuf)
+	_, err = io.ReadFull(reader, capacityBuf)
 	if err != nil {
 		return fmt.Errorf("failed to read capacity: %w", err)
 	}
 	i.capacity = slottools.Uint64FromLEBytes(capacityBuf)
 
+	// The capacity comes from the file: each value takes 4 bytes, so it cannot exceed what is left to read.
+	if i.capacity > uint64(reader.Len())/4 {
+		return fmt.Errorf("invalid capacity %d: only %d bytes of values follow", i.capacity, reader.Len())
+	}
 	i.values = make([]int64, i.capacity)
 	for j := uint64(0); j < i.capacity; j++ {
 		timeBuf := make([]byte, 4)
-		_, err = reader.Read(timeBuf)
+		_, err = io.ReadFull(reader, timeBuf)
 		if err != nil {
 			return fmt.Errorf("failed to read time: %w", err)
 		}
